@@ -496,27 +496,33 @@ package packets1
 //@ func lemmaRoundtripAdvertise
 //@   nopanic [C21]
 //@   requires [C21] legal: true
-//@   ensures [C21] same_fields: q.GatewayID == p.GatewayID && q.Duration == p.Duration
+//@   ensures [C21] same_q_GatewayID: q.GatewayID == p.GatewayID
+//@   ensures [C21] same_q_Duration: q.Duration == p.Duration
 //@   ensures [C21] length_field: lenFieldOK(b)
 //@ func lemmaRoundtripSearchGw
 //@   nopanic [C21]
 //@   requires [C21] legal: true
-//@   ensures [C21] same_fields: q.Radius == p.Radius
+//@   ensures [C21] same_q_Radius: q.Radius == p.Radius
 //@   ensures [C21] length_field: lenFieldOK(b)
 //@ func lemmaRoundtripGwInfo
 //@   nopanic [C21]
 //@   requires [C21] legal: len(addr) <= 7168
-//@   ensures [C21] same_fields: q.GatewayID == p.GatewayID && bytesEq(q.GatewayAddress, p.GatewayAddress)
+//@   ensures [C21] same_q_GatewayID: q.GatewayID == p.GatewayID
+//@   ensures [C21] same_q_GatewayAddress_p_GatewayAddress: bytesEq(q.GatewayAddress, p.GatewayAddress)
 //@   ensures [C21] length_field: lenFieldOK(b)
 //@ func lemmaRoundtripConnect
 //@   nopanic [C21]
 //@   requires [C21] legal: len(clientID) >= 1 && len(clientID) <= 7168
-//@   ensures [C21] same_fields: q.Will == p.Will && q.CleanSession == p.CleanSession && q.ProtocolID == p.ProtocolID && q.Duration == p.Duration && bytesEq(q.ClientID, p.ClientID)
+//@   ensures [C21] same_q_Will: q.Will == p.Will
+//@   ensures [C21] same_q_CleanSession: q.CleanSession == p.CleanSession
+//@   ensures [C21] same_q_ProtocolID: q.ProtocolID == p.ProtocolID
+//@   ensures [C21] same_q_Duration: q.Duration == p.Duration
+//@   ensures [C21] same_q_ClientID_p_ClientID: bytesEq(q.ClientID, p.ClientID)
 //@   ensures [C21] length_field: lenFieldOK(b)
 //@ func lemmaRoundtripConnack
 //@   nopanic [C21]
 //@   requires [C21] legal: true
-//@   ensures [C21] same_fields: q.ReturnCode == p.ReturnCode
+//@   ensures [C21] same_q_ReturnCode: q.ReturnCode == p.ReturnCode
 //@   ensures [C21] length_field: lenFieldOK(b)
 //@ func lemmaRoundtripWillTopicReq
 //@   nopanic [C21]
@@ -529,57 +535,72 @@ package packets1
 //@ func lemmaRoundtripWillMsg
 //@   nopanic [C21]
 //@   requires [C21] legal: len(msg) <= 7168
-//@   ensures [C21] same_fields: bytesEq(q.WillMsg, p.WillMsg)
+//@   ensures [C21] same_q_WillMsg_p_WillMsg: bytesEq(q.WillMsg, p.WillMsg)
 //@   ensures [C21] length_field: lenFieldOK(b)
 //@ func lemmaRoundtripRegister
 //@   nopanic [C21]
 //@   requires [C21] legal: len(name) >= 1 && len(name) <= 7168
-//@   ensures [C21] same_fields: q.TopicID == p.TopicID && q.messageID == p.messageID && q.TopicName == p.TopicName
+//@   ensures [C21] same_q_TopicID: q.TopicID == p.TopicID
+//@   ensures [C21] same_q_messageID: q.messageID == p.messageID
+//@   ensures [C21] same_q_TopicName: q.TopicName == p.TopicName
 //@   ensures [C21] length_field: lenFieldOK(b)
 //@ func lemmaRoundtripRegack
 //@   nopanic [C21]
 //@   requires [C21] legal: true
-//@   ensures [C21] same_fields: q.TopicID == p.TopicID && q.messageID == p.messageID && q.ReturnCode == p.ReturnCode
+//@   ensures [C21] same_q_TopicID: q.TopicID == p.TopicID
+//@   ensures [C21] same_q_messageID: q.messageID == p.messageID
+//@   ensures [C21] same_q_ReturnCode: q.ReturnCode == p.ReturnCode
 //@   ensures [C21] length_field: lenFieldOK(b)
 //@ func lemmaRoundtripPublish
 //@   nopanic [C21]
 //@   requires [C21] legal: len(data) <= 7168 && qos <= 3 && tit <= 3
-//@   ensures [C21] same_fields: q.dup == p.dup && q.QOS == p.QOS && q.Retain == p.Retain && q.TopicIDType == p.TopicIDType && q.TopicID == p.TopicID && q.messageID == p.messageID && bytesEq(q.Data, p.Data)
+//@   ensures [C21] same_q_dup: q.dup == p.dup
+//@   ensures [C21] same_q_QOS: q.QOS == p.QOS
+//@   ensures [C21] same_q_Retain: q.Retain == p.Retain
+//@   ensures [C21] same_q_TopicIDType: q.TopicIDType == p.TopicIDType
+//@   ensures [C21] same_q_TopicID: q.TopicID == p.TopicID
+//@   ensures [C21] same_q_messageID: q.messageID == p.messageID
+//@   ensures [C21] same_q_Data_p_Data: bytesEq(q.Data, p.Data)
 //@   ensures [C21] length_field: lenFieldOK(b)
 //@ func lemmaRoundtripPuback
 //@   nopanic [C21]
 //@   requires [C21] legal: true
-//@   ensures [C21] same_fields: q.TopicID == p.TopicID && q.messageID == p.messageID && q.ReturnCode == p.ReturnCode
+//@   ensures [C21] same_q_TopicID: q.TopicID == p.TopicID
+//@   ensures [C21] same_q_messageID: q.messageID == p.messageID
+//@   ensures [C21] same_q_ReturnCode: q.ReturnCode == p.ReturnCode
 //@   ensures [C21] length_field: lenFieldOK(b)
 //@ func lemmaRoundtripPubcomp
 //@   nopanic [C21]
 //@   requires [C21] legal: true
-//@   ensures [C21] same_fields: q.messageID == p.messageID
+//@   ensures [C21] same_q_messageID: q.messageID == p.messageID
 //@   ensures [C21] length_field: lenFieldOK(b)
 //@ func lemmaRoundtripPubrec
 //@   nopanic [C21]
 //@   requires [C21] legal: true
-//@   ensures [C21] same_fields: q.messageID == p.messageID
+//@   ensures [C21] same_q_messageID: q.messageID == p.messageID
 //@   ensures [C21] length_field: lenFieldOK(b)
 //@ func lemmaRoundtripPubrel
 //@   nopanic [C21]
 //@   requires [C21] legal: true
-//@   ensures [C21] same_fields: q.messageID == p.messageID
+//@   ensures [C21] same_q_messageID: q.messageID == p.messageID
 //@   ensures [C21] length_field: lenFieldOK(b)
 //@ func lemmaRoundtripSuback
 //@   nopanic [C21]
 //@   requires [C21] legal: qos <= 3
-//@   ensures [C21] same_fields: q.QOS == p.QOS && q.TopicID == p.TopicID && q.messageID == p.messageID && q.ReturnCode == p.ReturnCode
+//@   ensures [C21] same_q_QOS: q.QOS == p.QOS
+//@   ensures [C21] same_q_TopicID: q.TopicID == p.TopicID
+//@   ensures [C21] same_q_messageID: q.messageID == p.messageID
+//@   ensures [C21] same_q_ReturnCode: q.ReturnCode == p.ReturnCode
 //@   ensures [C21] length_field: lenFieldOK(b)
 //@ func lemmaRoundtripUnsuback
 //@   nopanic [C21]
 //@   requires [C21] legal: true
-//@   ensures [C21] same_fields: q.messageID == p.messageID
+//@   ensures [C21] same_q_messageID: q.messageID == p.messageID
 //@   ensures [C21] length_field: lenFieldOK(b)
 //@ func lemmaRoundtripPingreq
 //@   nopanic [C21]
 //@   requires [C21] legal: len(clientID) <= 7168
-//@   ensures [C21] same_fields: bytesEq(q.ClientID, p.ClientID)
+//@   ensures [C21] same_q_ClientID_p_ClientID: bytesEq(q.ClientID, p.ClientID)
 //@   ensures [C21] length_field: lenFieldOK(b)
 //@ func lemmaRoundtripPingresp
 //@   nopanic [C21]
@@ -588,50 +609,56 @@ package packets1
 //@ func lemmaRoundtripWillTopicResp
 //@   nopanic [C21]
 //@   requires [C21] legal: true
-//@   ensures [C21] same_fields: q.ReturnCode == p.ReturnCode
+//@   ensures [C21] same_q_ReturnCode: q.ReturnCode == p.ReturnCode
 //@   ensures [C21] length_field: lenFieldOK(b)
 //@ func lemmaRoundtripWillMsgUpd
 //@   nopanic [C21]
 //@   requires [C21] legal: len(msg) <= 7168
-//@   ensures [C21] same_fields: bytesEq(q.WillMsg, p.WillMsg)
+//@   ensures [C21] same_q_WillMsg_p_WillMsg: bytesEq(q.WillMsg, p.WillMsg)
 //@   ensures [C21] length_field: lenFieldOK(b)
 //@ func lemmaRoundtripWillMsgResp
 //@   nopanic [C21]
 //@   requires [C21] legal: true
-//@   ensures [C21] same_fields: q.ReturnCode == p.ReturnCode
+//@   ensures [C21] same_q_ReturnCode: q.ReturnCode == p.ReturnCode
 //@   ensures [C21] length_field: lenFieldOK(b)
 //@ func lemmaRoundtripAuth
 //@   nopanic [C21]
 //@   requires [C21] legal: len(user) <= 255 && len(password) <= 6000
-//@   ensures [C21] same_fields: q.Reason == p.Reason && q.Method == p.Method && bytesEq(q.Data, p.Data)
+//@   ensures [C21] same_q_Reason: q.Reason == p.Reason
+//@   ensures [C21] same_q_Method: q.Method == p.Method
+//@   ensures [C21] same_q_Data_p_Data: bytesEq(q.Data, p.Data)
 //@   ensures [C21] length_field: lenFieldOK(b)
 //@ func lemmaRoundtripDisconnect
 //@   nopanic [C21]
 //@   requires [C21] legal: true
-//@   ensures [C21] same_fields: q.Duration == p.Duration
+//@   ensures [C21] same_q_Duration: q.Duration == p.Duration
 //@   ensures [C21] length_field: lenFieldOK(b)
 //@ func lemmaRoundtripWillTopic
 //@   nopanic [C21]
 //@   requires [C21] legal: len(topic) <= 7168 && qos <= 3
-//@   ensures [C21] same_fields: q.WillTopic == p.WillTopic
+//@   ensures [C21] same_q_WillTopic: q.WillTopic == p.WillTopic
 //@   ensures [C21] same_extra0: len(topic) > 0 ==> q.QOS == p.QOS && q.Retain == p.Retain
 //@   ensures [C21] length_field: lenFieldOK(b)
 //@ func lemmaRoundtripWillTopicUpd
 //@   nopanic [C21]
 //@   requires [C21] legal: len(topic) <= 7168 && qos <= 3
-//@   ensures [C21] same_fields: q.WillTopic == p.WillTopic
+//@   ensures [C21] same_q_WillTopic: q.WillTopic == p.WillTopic
 //@   ensures [C21] same_extra0: len(topic) > 0 ==> q.QOS == p.QOS && q.Retain == p.Retain
 //@   ensures [C21] length_field: lenFieldOK(b)
 //@ func lemmaRoundtripSubscribe
 //@   nopanic [C21]
 //@   requires [C21] legal: qos <= 3 && tit <= 2 && (tit == 0 ==> len(name) >= 1 && len(name) <= 7168) && (tit != 0 ==> len(name) == 0) && (tit == 0 ==> topicID == 0)
-//@   ensures [C21] same_fields: q.dup == p.dup && q.QOS == p.QOS && q.TopicIDType == p.TopicIDType && q.messageID == p.messageID
+//@   ensures [C21] same_q_dup: q.dup == p.dup
+//@   ensures [C21] same_q_QOS: q.QOS == p.QOS
+//@   ensures [C21] same_q_TopicIDType: q.TopicIDType == p.TopicIDType
+//@   ensures [C21] same_q_messageID: q.messageID == p.messageID
 //@   ensures [C21] same_extra0: q.TopicID == p.TopicID && q.TopicName == p.TopicName
 //@   ensures [C21] length_field: lenFieldOK(b)
 //@ func lemmaRoundtripUnsubscribe
 //@   nopanic [C21]
 //@   requires [C21] legal: tit <= 2 && (tit == 0 ==> len(name) >= 1 && len(name) <= 7168) && (tit != 0 ==> len(name) == 0) && (tit == 0 ==> topicID == 0)
-//@   ensures [C21] same_fields: q.TopicIDType == p.TopicIDType && q.messageID == p.messageID
+//@   ensures [C21] same_q_TopicIDType: q.TopicIDType == p.TopicIDType
+//@   ensures [C21] same_q_messageID: q.messageID == p.messageID
 //@   ensures [C21] same_extra0: q.TopicID == p.TopicID && q.TopicName == p.TopicName
 //@   ensures [C21] length_field: lenFieldOK(b)
 //@ inline (*Auth).computeLength
